@@ -293,7 +293,9 @@ fn check_transition<F: Special>(
     }
     let r = guarded(fid, op.code(), ra, rb, || apply::<F>(op, a, b));
     local.transitions += 1;
-    let (va, vb) = (F::int(a), F::int(b));
+    // operands are handed to the reference reduced: an as_int() at or above M is reported where it is
+    // produced (the `got` of that transition), it must not take the reference outside its domain
+    let (va, vb) = (F::int(a) % F::M, F::int(b) % F::M);
     let expect = rc.eval(op, va, vb);
     let got = F::int(r);
     let rr = F::raw(r);
@@ -581,7 +583,7 @@ macro_rules! ext_sweep {
                     c[k] = alpha[idx % n];
                     idx /= n;
                 }
-                let v = c.iter().map(|e| F::int(*e)).collect();
+                let v = c.iter().map(|e| F::int(*e) % F::M).collect();
                 (c, v)
             };
             let mk = |c: &[F::E; $d]| -> X<F::E> {
@@ -629,7 +631,7 @@ macro_rules! ext_sweep {
                     check("exp", ints(a.exp_vartime((k as u32).into())), ext.pow(&va, k), &format!(", k = {k}"));
                 }
                 for b in alpha {
-                    check("mul_base", ints(<X<F::E> as ExtensionOf<F::E>>::mul_base(a, *b)), ext.mul_base(&va, F::int(*b)), &format!(", b = raw {:#x}", F::raw(*b)));
+                    check("mul_base", ints(<X<F::E> as ExtensionOf<F::E>>::mul_base(a, *b)), ext.mul_base(&va, F::int(*b) % F::M), &format!(", b = raw {:#x}", F::raw(*b)));
                 }
                 // equality against every element with the same / a different value is covered by
                 // the binary sweep below (a == b ⇔ values equal)
